@@ -296,7 +296,7 @@ func (r *checkRun) genFunc(pf PropFunc, macro bool) *VC {
 		file, line, hash := r.prog.funcSourceHash(fn)
 		nclauses := len(fc.Requires) + len(fc.Ensures)
 		for _, l := range fc.Loops {
-			nclauses += len(l.Invariants)
+			nclauses += len(l.Invariants) + len(l.Steps) + len(l.MustCalls)
 			if l.Decreases != nil {
 				nclauses++
 			}
